@@ -318,6 +318,11 @@ def calculate_nd_frequencies(
     """
     if data is None:
         return None, None, 0
+    if np.shape(data)[0] == 0 and all(
+        binning.is_adaptive() and binning.bin_count == 0 for binning in binnings
+    ):
+        # No value to create the first adaptive bins from => same as no data at all
+        return None, None, 0
 
     # Prepare numpy array of data
     if data.ndim != 2:
@@ -402,6 +407,9 @@ def calculate_1d_frequencies(
     """
 
     if data is None:
+        return None, None, 0.0, 0.0, None
+    if np.size(data) == 0 and binning.is_adaptive() and binning.bin_count == 0:
+        # No value to create the first adaptive bin from => same as no data at all
         return None, None, 0.0, 0.0, None
 
     # TODO: Is it possible to merge with histogram_nd.calculate_frequencies?
